@@ -395,6 +395,22 @@ func (g *c06gen) newColl() c06coll {
 		typs = append(typs, "set")
 	}
 	c := c06coll{name: g.fresh("C"), typ: typs[g.r.Intn(len(typs))]}
+	if g.r.Chance(1, 14) {
+		// a large collection: constructs that consume it in one instruction
+		// (*args, unpacking, built-ins) then do many element steps inside it
+		c.n = g.r.Pick3(64, 130, 200)
+		switch c.typ {
+		case "list":
+			c.lit = fmt.Sprintf("list(range(1, %d))", c.n+1)
+		case "dict":
+			c.lit = fmt.Sprintf("dict([(\"a\", 1)] + [(q, q) for q in range(%d)])", c.n-1)
+		case "set":
+			c.lit = fmt.Sprintf("set(range(1, %d))", c.n+1)
+		}
+		g.emit(1, "%s = keep(%s, %q)", c.name, c.lit, c.name)
+		g.colls = append(g.colls, c)
+		return c
+	}
 	c.n = g.r.Pick3(0, 1, g.r.Range(2, 4))
 	var el []string
 	for i := 0; i < c.n; i++ {
@@ -694,7 +710,7 @@ func (g *c06gen) construct() {
 		for i := 0; i < want; i++ {
 			ps = append(ps, fmt.Sprintf("p%d", i))
 		}
-		if g.r.Bool() {
+		if g.r.Bool() || c.n > 10 {
 			ps = append(ps, "*rest")
 		}
 		g.addDef(fn, fmt.Sprintf("def %s(%s):\n    return 1\n", fn, strings.Join(ps, ", ")))
